@@ -15,20 +15,13 @@ M = "arith-by-label"
 
 
 def _pow(a, b):
-    if isnan(a) or isnan(b):
-        # numpy: nan**0 == 1, 1**nan == 1
-        if b == 0 or a == 1:
-            return 1
-        return math.nan
-    try:
-        if isinstance(a, int) and isinstance(b, int) and 0 <= b <= 64 and abs(a) < 2**20:
-            return a**b
-        r = math.pow(as_float(a), as_float(b))
-        return r
-    except (ValueError, ZeroDivisionError):
-        return math.nan
-    except OverflowError:
-        return math.inf
+    """scalar power with numpy's conventions (0**-1 = inf, nan**0 = 1, negative**fraction = nan); the label alignment,
+    not the scalar function, is what the oracle decides"""
+    if isinstance(a, int) and isinstance(b, int) and 0 <= b <= 64 and abs(a) < 2**20:
+        return a**b
+    with np.errstate(all="ignore"):
+        r = float(np.float64(as_float(a)) ** np.float64(as_float(b)))
+    return r
 
 
 def register(hub, prop="C01"):
